@@ -1,6 +1,8 @@
 //! `sim`: deterministic simulation harness for grmtools. See /verif/DESIGN.md.
 mod common;
 mod driver_r;
+mod buildstep;
+mod engine_d;
 mod engine_n;
 mod engine_r;
 mod gram;
@@ -29,6 +31,7 @@ fn real_main(args: &[String]) -> i32 {
         "r-worker" => return driver_r::worker_main(&args[1..]),
         "r-one" => return driver_r::one_main(&args[1..]),
         "r-shrink" => return driver_r::shrink_main(&args[1], &args[2]),
+        "build-step" => return buildstep::main(&args[1], &args[2]),
         "replay-inner" => return driver_r::replay_inner_main(&args[1], args.iter().any(|a| a == "--quiet")),
         _ => {}
     }
@@ -49,6 +52,7 @@ fn real_main(args: &[String]) -> i32 {
             match prop.as_str() {
                 "C05" | "C06" | "C07" | "C08" => driver_r::check_main(prop, tier),
                 "C19" => engine_n::check_main(tier),
+                "C15" => engine_d::check_main(tier),
                 _ => usage(),
             }
         }
@@ -65,6 +69,7 @@ fn real_main(args: &[String]) -> i32 {
             match v["engine"].as_str() {
                 Some("R") => driver_r::replay_main(p, quiet),
                 Some("N") => engine_n::replay_main(&v, p, quiet),
+                Some("D") => engine_d::replay_main(&v, p, quiet),
                 _ => {
                     eprintln!("harness error: unknown engine in {p}");
                     EXIT_HARNESS
